@@ -245,6 +245,73 @@ func keyOrSetCanaries(frames []map[string]cty.Value) map[string]bool {
 	return out
 }
 
+// derivedKeyCanaries: the canaries that are a key, attribute name or set element of
+// a collection the source iterates over (for collections and for_each values,
+// evaluated in the case's own scope): e.g. for_each = {(sec) = 1}.
+func derivedKeyCanaries(ci *caseInput, cans []string) map[string]bool {
+	out := map[string]bool{}
+	var colls []hclsyntax.Expression
+	collect := func(n hclsyntax.Node) {
+		hclsyntax.VisitAll(n, func(nd hclsyntax.Node) hcl.Diagnostics {
+			if fe, ok := nd.(*hclsyntax.ForExpr); ok {
+				colls = append(colls, fe.CollExpr)
+			}
+			if a, ok := nd.(*hclsyntax.Attribute); ok && a.Name == "for_each" {
+				colls = append(colls, a.Expr)
+			}
+			return nil
+		})
+	}
+	src := []byte(ci.src)
+	switch ci.mode {
+	case "expr":
+		if e, d := hclsyntax.ParseExpression(src, fileName, hcl.InitialPos); !d.HasErrors() {
+			collect(e)
+		}
+	case "json":
+		return out
+	default:
+		if f, d := hclsyntax.ParseConfig(src, fileName, hcl.InitialPos); !d.HasErrors() {
+			collect(f.Body.(*hclsyntax.Body))
+		}
+	}
+	var walk func(v cty.Value, inSet bool)
+	walk = func(v cty.Value, inSet bool) {
+		u, _ := v.Unmark()
+		if !u.IsKnown() || u.IsNull() {
+			return
+		}
+		ty := u.Type()
+		switch {
+		case ty == cty.String:
+			if c := findCanary(u.AsString(), cans); inSet && c != "" {
+				out[c] = true
+			}
+		case ty.IsCollectionType() || ty.IsTupleType() || ty.IsObjectType():
+			for it := u.ElementIterator(); it.Next(); {
+				kv, ev := it.Element()
+				if ty.IsMapType() || ty.IsObjectType() {
+					ku, _ := kv.Unmark()
+					if c := findCanary(ku.AsString(), cans); c != "" {
+						out[c] = true
+					}
+				}
+				walk(ev, inSet || ty.IsSetType())
+			}
+		}
+	}
+	ctx := ci.evalCtx()
+	for _, e := range colls {
+		func() {
+			defer func() { recover() }()
+			if v, d := e.Value(ctx); !d.HasErrors() {
+				walk(v, false)
+			}
+		}()
+	}
+	return out
+}
+
 // ---- (b) rebind: source rewriting ------------------------------------------------------
 
 type edit struct {
@@ -603,6 +670,8 @@ func classify(ci *caseInput, hits []hit, note func(string)) []hit {
 			note("classify:pushdown-agrees")
 		case keyset[h.canary]:
 			note("classify:pushdown-inexpressible(map key or set element)")
+		case derivedKeyCanaries(ci, cans)[h.canary]:
+			note("classify:pushdown-inexpressible(key of an iterated collection built by the expression)")
 		default:
 			note("classify:rebind-only(left generic)")
 			continue
